@@ -1211,7 +1211,8 @@ class Stage:
         alg = veccat(*self._alg)
         t = self.t
         expr = vertcat(ode,alg,quad)
-        if not depends_on(expr,t):
+        # (structural test: a right-hand side that is a slice of a larger expression may mention t without depending on it)
+        if not (isinstance(expr, MX) and any(is_equal(e, t) for e in ca.symvar(expr))):
             t = MX.sym('t', Sparsity(1, 1))
         assert not depends_on(expr,self.DT), "Your ODE right-hand-side depends on DT; not supported."
         assert not depends_on(expr,self.DT_control), "Your ODE right-hand-side depends on DT_control; not supported."
